@@ -92,6 +92,9 @@ func checkC16(c *vh.Ctx) {
 func c16Run(c *vh.Ctx, r *vh.Rng, k int, root string, cases, impl *[]string, inputs map[string]interface{}) {
 	name := fmt.Sprintf("r%d", k)
 	p := proj.Gen(r, name, proj.Opt{Years: r.Range(2, 3), MaxLayers: 10})
+	if r.Chance(0.3) {
+		p.RotForeign = r.Range(1, 3) // rotation file shared with other fields, ordered by year
+	}
 	cs := c16Prepare(r, p, k, (k/16)%4)
 	autoMan, autoHar, autoIrr, autoFert, sw, format, table, entries, s0 := cs.AutoMan, cs.AutoHar, cs.AutoIrr, cs.AutoFert, cs.Sw, cs.Format, cs.Table, cs.Entries, cs.S0
 	replay := map[string]interface{}{"project": p, "automan": entries, "switches": sw, "date_format": format,
